@@ -327,3 +327,22 @@ Proof.
   intros Ha. destruct (dn_endpoints minv def maxv Ha) as [H1 [H2 H3]]. unfold normalize_axis.
   split; [|split]; intros; rewrite ?H1, ?H2, ?H3 by assumption; reflexivity.
 Qed.
+
+(* ---------- totality (C01): normalisation returns a tuple or an error for every fvar/avar content *)
+Lemma normalize_axes_total : forall axes coords avar,
+  (exists v, normalize_axes axes coords avar = Ok v) \/ (exists e, normalize_axes axes coords avar = Err e).
+Proof.
+  induction axes as [|a axes IH]; intros coords avar; [left; eexists; reflexivity|].
+  destruct coords as [|c coords]; [left; eexists; reflexivity|].
+  cbn [normalize_axes]. destruct avar as [[|m maps]|].
+  - right; eexists; reflexivity.
+  - destruct (IH coords (Some maps)) as [[v ->]|[e ->]]; cbn [bind]; [left|right]; eexists; reflexivity.
+  - destruct (IH coords None) as [[v ->]|[e ->]]; cbn [bind]; [left|right]; eexists; reflexivity.
+Qed.
+
+Lemma fvar_normalize_total axes coords avar :
+  (exists v, fvar_normalize axes coords avar = Ok v) \/ (exists e, fvar_normalize axes coords avar = Err e).
+Proof.
+  unfold fvar_normalize. destruct (negb (len coords =? len axes)); [right; eexists; reflexivity|].
+  apply normalize_axes_total.
+Qed.
